@@ -45,9 +45,17 @@ def _protected_names() -> set:
             for part in m.group(1).split('.'):
                 names.add(part)
         if p.endswith('tables_ref.py'):
-            # the reference tables name the helpers they leave uninterpreted: every identifier in them
-            for m in re.finditer(r"[A-Za-z_][A-Za-z0-9_]*", src):
-                names.add(m.group(0))
+            # the reference tables name the helpers they leave uninterpreted: every function / method they
+            # define or call
+            import ast as _ast
+            for x in _ast.walk(_ast.parse(src)):
+                if isinstance(x, _ast.FunctionDef):
+                    names.add(x.name)
+                elif isinstance(x, _ast.Call):
+                    if isinstance(x.func, _ast.Name):
+                        names.add(x.func.id)
+                    elif isinstance(x.func, _ast.Attribute):
+                        names.add(x.func.attr)
     return names
 
 
@@ -166,7 +174,8 @@ class _Renamer(ast.NodeTransformer):
 
 
 def _callee_ok(g: ast.FunctionDef) -> bool:
-    if g.name in PROTECTED or (g.name.startswith('__') and g.name.endswith('__')):
+    if (g.name in PROTECTED and not getattr(g, '_malsa_record_method', False)) or \
+            (g.name.startswith('__') and g.name.endswith('__')):
         return False
     for d in g.decorator_list:
         if not (isinstance(d, ast.Name) and d.id == 'staticmethod'):
@@ -311,6 +320,15 @@ class _Inliner:
                     return g, fn.value, static
                 if isinstance(fn.value, ast.Name) and fn.value.id in (owner_cls, 'cls') and static:
                     return g, None, True
+        # method call on a local known to hold a small record object of this module
+        if isinstance(fn, ast.Attribute) and isinstance(fn.value, ast.Name) and fn.value.id in getattr(self, 'records', {}):
+            K = self.records[fn.value.id][0]
+            g = self.class_methods.get(K, {}).get(fn.attr)
+            if g is not None and g is not f and not any(
+                    isinstance(d, ast.Name) and d.id == 'staticmethod' for d in g.decorator_list):
+                if K not in PROTECTED:
+                    g._malsa_record_method = True      # a method of a small record class the rules know nothing of
+                return g, fn.value, False
         # method of ANOTHER class of this module, receiver a plain name / attribute: resolved only when the method
         # name is unique among the module's classes and the module's functions
         if isinstance(fn, ast.Attribute) and _simple_arg(fn.value):
@@ -322,11 +340,72 @@ class _Inliner:
                     return g, fn.value, False
         return None
 
+    def _record_locals(self, f):
+        """locals bound exactly once to `K(simple args)` where K is a class of this module whose __init__ only
+        stores its parameters in fields: -> {local: (class name, {field: arg expr})}"""
+        stores = {}
+        for x in ast.walk(f):
+            if isinstance(x, ast.Name) and isinstance(x.ctx, (ast.Store, ast.Del)):
+                stores[x.id] = stores.get(x.id, 0) + 1
+        out = {}
+        for x in ast.walk(f):
+            if isinstance(x, ast.Assign) and len(x.targets) == 1 and isinstance(x.targets[0], ast.Name) \
+                    and isinstance(x.value, ast.Call) and isinstance(x.value.func, ast.Name) \
+                    and x.value.func.id in self.class_methods and stores.get(x.targets[0].id) == 1:
+                K = x.value.func.id
+                init = self.class_methods[K].get('__init__')
+                if init is None or init.args.vararg or init.args.kwarg:
+                    continue
+                params = [a.arg for a in init.args.args][1:]
+                selfn = init.args.args[0].arg if init.args.args else 'self'
+                fields = {}
+                ok = True
+                for st in init.body:
+                    if isinstance(st, ast.Expr) and isinstance(st.value, ast.Constant):
+                        continue
+                    tg = st.targets[0] if isinstance(st, ast.Assign) and len(st.targets) == 1 else (
+                        st.target if isinstance(st, ast.AnnAssign) else None)
+                    val = getattr(st, 'value', None)
+                    if isinstance(tg, ast.Attribute) and isinstance(tg.value, ast.Name) and tg.value.id == selfn \
+                            and isinstance(val, ast.Name) and val.id in params:
+                        fields[tg.attr] = val.id
+                    else:
+                        ok = False
+                if not ok:
+                    continue
+                bound = _bind(init, x.value, ast.Name(id='__self__', ctx=ast.Load()), False)
+                if bound is None or not all(_simple_arg(bound[p]) for p in params if p in bound):
+                    continue
+                # the argument expressions must keep their meaning: names in them are never re-assigned in f
+                argnames = {n.id for p in params for n in ast.walk(bound[p]) if isinstance(n, ast.Name)}
+                fparams = {a.arg for a in f.args.args}
+                if any(stores.get(nm, 0) > (0 if nm in fparams else 1) for nm in argnames):
+                    continue
+                out[x.targets[0].id] = (K, {fld: bound[p] for fld, p in fields.items()})
+        return out
+
     def _function(self, owner_cls, f):
         nested = {n.name: n for n in f.body if isinstance(n, ast.FunctionDef)}
+        self.records = self._record_locals(f)
         self._block(owner_cls, f, f.body, nested)
         # expression-level: single-return callees
         self._expressions(owner_cls, f, nested)
+        # fields of record locals are the constructor arguments (nothing stores into them in f)
+        if self.records:
+            stored_fields = {(x.value.id, x.attr) for x in ast.walk(f) if isinstance(x, ast.Attribute)
+                             and isinstance(x.ctx, (ast.Store, ast.Del)) and isinstance(x.value, ast.Name)}
+            recs = self.records
+            outer = self
+
+            class F(ast.NodeTransformer):
+                def visit_Attribute(self, node):
+                    self.generic_visit(node)
+                    if isinstance(node.ctx, ast.Load) and isinstance(node.value, ast.Name) and node.value.id in recs \
+                            and node.attr in recs[node.value.id][1] and (node.value.id, node.attr) not in stored_fields:
+                        outer.count += 1
+                        return ast.copy_location(copy.deepcopy(recs[node.value.id][1][node.attr]), node)
+                    return node
+            F().visit(f)
         # a nested function whose every call was replaced by its body is dead: drop the definition
         if nested:
             used = {x.id for x in ast.walk(f) if isinstance(x, ast.Name) and isinstance(x.ctx, ast.Load)}
